@@ -27,7 +27,7 @@ SC_HOST = os.path.join(util.VERIF, "harness", "mock", "sc_host.py")
 
 EPS = ("ws", "imds", "ga")
 EP_JSON = {"ws": "wireserver", "imds": "imds", "ga": "hostga"}
-AGUIDS = ("g1", "g2", "g3", "g4", "g5", "g6")
+AGUIDS = ("g1", "g2", "g3", "g4", "g5", "g6", "g7", "g8")
 FOREIGN = "gx"
 NOITEM = {"id": "", "mode": "-", "c": "-"}
 CONTENTS = ("c1", "c2", "c3")
@@ -46,18 +46,30 @@ def K(a):
     return hashlib.sha256(("key-of-" + G(a)).encode()).hexdigest().upper()
 
 
-GUID_REV = {G(a): a for a in AGUIDS + (FOREIGN,)}
+SPELLINGS = ("lower", "upper", "nohyphen")
 
 
-def key_file_body(a, pretty=True, inc=0):
-    d = {"authorizationScheme": "Azure-HMAC-SHA256", "guid": G(a), "issued": "2021-05-05T 12:00:00Z", "key": K(a)}
+def spell(guid, how="lower"):
+    """a guid as the host may legally write it: lower case with hyphens, upper case, or without hyphens"""
+    if how == "upper":
+        return guid.upper()
+    if how == "nohyphen":
+        return guid.replace("-", "")
+    return guid
+
+
+GUID_REV = {spell(G(a), h): a for a in AGUIDS + (FOREIGN,) for h in SPELLINGS}
+
+
+def key_file_body(a, pretty=True, inc=0, spelling="lower"):
+    d = {"authorizationScheme": "Azure-HMAC-SHA256", "guid": spell(G(a), spelling), "issued": "2021-05-05T 12:00:00Z", "key": K(a)}
     if inc:
         d["incarnationId"] = inc
     return json.dumps(d, indent=2 if pretty else None)
 
 
-def issue_entry(a, inc_map):
-    e = {"guid": G(a), "key": K(a)}
+def issue_entry(a, inc_map, spelling="lower"):
+    e = {"guid": spell(G(a), spelling), "key": K(a)}
     if (inc_map or {}).get(a):
         e["incarnationId"] = inc_map[a]
     return e
@@ -209,7 +221,7 @@ def classify_file(name, content, size):
         return a, kind, "corrupt"
     try:
         d = json.loads(content)
-        good = isinstance(d, dict) and d.get("guid") == G(a) and d.get("key") == K(a)
+        good = isinstance(d, dict) and GUID_REV.get(d.get("guid")) == a and d.get("key") == K(a)
     except (ValueError, TypeError):
         good = False
     if good:
@@ -424,7 +436,22 @@ def poll_row(status="ok", acquire="ok", g="g1", attest="ok", notify=False, mid=N
 
 
 STATUS_FAIL = [{"a": "http", "status": 500}, {"a": "http", "status": 503, "body": "busy"}, {"a": "http", "status": 404},
-               {"a": "http", "status": 429}, {"a": "http", "status": 301}, {"a": "reset"}, {"a": "close"}, {"a": "truncate"}]
+               {"a": "http", "status": 429}, {"a": "http", "status": 301}, {"a": "reset"}, {"a": "close"}, {"a": "truncate"},
+               # an error status whose body is a well-formed status document that differs from the one in force (a degraded
+               # host attaching its default / a stale document to the error): still a failed status request
+               {"a": "http_doc", "status": 503}, {"a": "http_doc", "status": 500}, {"a": "http_doc", "status": 429}]
+
+
+def error_document(cur_doc, named):
+    """the document a failing host attaches to its error answer: its 'nothing configured' default, or -- when that is
+    what the agent already follows -- an enabled one"""
+    if state_of(cur_doc)["k"] != "disabled":
+        d = concrete_doc(adoc("2.0", "disabled"))
+        d["keyGuid"] = None
+    else:
+        d = concrete_doc(adoc("1.0", "wireserverandimds", True, ws=item("r3", "enforce", "c2"), imds=item("r1", "audit")))
+        d["keyGuid"] = named
+    return d
 STATUS_INVALID = [
     {"a": "raw200", "body": "<html>not json</html>", "ctype": "text/html"},
     {"a": "raw200", "body": ""},
@@ -583,6 +610,26 @@ def corner_histories(rnd):
     """histories the exhaustive corner configurations of TLC found to break `Converged` in the design that mirrors the
     code; replayed on the real code to see whether the implementation has them too"""
     out = {}
+    P0 = lambda **kw: concretise_poll(poll_row(**kw), rnd)
+    # (first, so that it starts early) a host that answers a status poll correctly but only after 6 s
+    e1 = adoc("2.0", "enabled", True, ws=item("r2", "enforce"))
+    e2 = adoc("2.0", "enabled", True, ws=item("r1", "audit", "c2"), imds=item("r2", "enforce"))
+    slow = P0(g="g2")
+    slow["how"]["delay_s"] = 6.2
+    out["slow-status-answer"] = [init_row(e1, "fresh"), P0(g="g1"), {"e": "reconf", "doc": e2}, slow, P0(g="g2"), {"e": "end"}]
+    # a status request answered with an error status AND a well-formed document (twice, from an enabled and from a
+    # disabled state)
+    for nm, code in (("503", 503), ("500", 500), ("429", 429)):
+        bad = P0(status="fail", g="g2")
+        bad["how"]["status"] = {"a": "http_doc", "status": code}
+        bad2 = json.loads(json.dumps(bad))
+        out["error-status-with-document:%s" % nm] = (
+            [init_row(e2, "haskey"), P0(g="g2"), bad, P0(g="g2"), {"e": "reconf", "doc": adoc("1.0", "disabled")}, P0(g="g2"), bad2,
+             P0(g="g3"), {"e": "end"}])
+    # several failed status polls in a row (state carried across polls must not turn the k-th failure into a change)
+    out["failed-status-polls-in-a-row"] = (
+        [init_row(e2, "haskey"), P0(g="g2"), P0(status="fail", g="g2"), P0(status="invalid", g="g2"), P0(status="fail", g="g2"),
+         P0(status="fail", g="g2"), P0(status="invalid", g="g2"), P0(g="g2"), P0(g="g2"), {"e": "end"}])
     a = item("", "enforce")
     out["empty-rule-id"] = ([init_row(adoc("2.0", "enabled", True, ws=a), "fresh"),
                              concretise_poll(poll_row(g="g1"), rnd), concretise_poll(poll_row(g="g2"), rnd), {"e": "end"}])
@@ -651,14 +698,14 @@ class Drift(Exception):
     pass
 
 
-def _files_for(init):
+def _files_for(init, spelling="lower"):
     files = {}
     inc = init.get("inc") or {}
     for a, st in init["final"].items():
         if st == "key":
-            files[G(a) + ".key"] = key_file_body(a, inc=inc.get(a, 0))
+            files[spell(G(a), spelling) + ".key"] = key_file_body(a, inc=inc.get(a, 0), spelling=spelling)
         elif st == "corrupt":
-            files[G(a) + ".key"] = key_file_body(a, inc=inc.get(a, 0))[:37]
+            files[spell(G(a), spelling) + ".key"] = key_file_body(a, inc=inc.get(a, 0), spelling=spelling)[:37]
     return files
 
 
@@ -738,7 +785,14 @@ def run_history(rg, rows, run_id, req_timeout=8):
                 drv.call(op="notify")         # the permit is stored now and consumed at the wait that ends this poll
             host.call(op="set", named_repr=how["named_repr"])
             served = cur_doc
-            host.call(op="reply", id=rq["id"], action=how["status"])
+            act = how["status"]
+            if act.get("a") == "http_doc":
+                hs0 = host.call(op="state")
+                act = {"a": "http", "status": act["status"], "ctype": "application/json; charset=utf-8",
+                       "body": json.dumps(error_document(cur_doc, hs0["named"]))}
+            if how.get("delay_s"):
+                time.sleep(how["delay_s"])      # a slow host: the (correct) answer is delivered after this long
+            host.call(op="reply", id=rq["id"], action=act)
             seen = {"acquire": "-", "attest": "-"}
             mid_done = False
             while True:
@@ -765,6 +819,7 @@ def run_history(rg, rows, run_id, req_timeout=8):
             obs, pol, npol, lat, nam, raw = observe()
             trace.append({"e": "poll", "status": row["status"], "acquire": seen["acquire"], "attest": seen["attest"],
                           "mid": mid_done, "notify": row["notify"], "doc": cur_doc, "served": served, "latched": lat,
+                          "slow": bool(how.get("delay_s")), "errdoc": how["status"].get("a") == "http_doc",
                           "obs": obs, "pol": pol, "npol": npol})
             observations.append({"obs": obs, "pol": pol, "npol": npol, "latched": lat, "named": nam})
             samples["last_projection"] = raw
@@ -1029,6 +1084,14 @@ C08_SCENARIOS = {
     "fresh-inc-equal": ("fresh", None, ["g1", "g2", "g3", "g4", "g5", "g6"], (1, 1)),
     "restart-with-key-inc-key-only": ("haskey", None, ["g2", "g3", "g4", "g5", "g6"], (None, 1)),
     "restart-with-key-inc-differ": ("haskey", None, ["g2", "g3", "g4", "g5", "g6"], (5, 2)),
+    # how the host spells its guids (5th element): every legal spelling names the same key
+    "fresh-guid-upper": ("fresh", None, ["g1", "g2", "g3", "g4", "g5", "g6"], (None, 0), "upper"),
+    "fresh-guid-nohyphen": ("fresh", None, ["g1", "g2", "g3", "g4", "g5", "g6"], (None, 1), "nohyphen"),
+    "restart-with-key-guid-upper": ("haskey", None, ["g2", "g3", "g4", "g5", "g6"], (None, 0), "upper"),
+    # the key directory also holds the files of keys the host refused (or rotated away from) whose modification times
+    # are LATER than that of the latched key's file (the clock was stepped back before the latch): 6th element = those keys
+    "restart-with-key-newer-leftovers": ("haskey", None, ["g7", "g8"], (None, 0), "lower", ["g2", "g3", "g4", "g5", "g6"]),
+    "restart-with-key-older-leftovers": ("haskey", None, ["g7", "g8"], (None, 0), "lower", ["g2", "g3", "g4", "g5", "g6"]),
 }
 C08_PLANS = {
     "none": {},
@@ -1189,22 +1252,35 @@ class Sweeper:
         self.rg.close(keep=keep)
 
     def _prepare(self, scenario, plan):
-        sc, named, queue = C08_SCENARIOS[scenario][:3]
-        status_inc, key_inc = (C08_SCENARIOS[scenario] + ((None, 0),))[3]
+        spec = C08_SCENARIOS[scenario] + ((None, 0), "lower", [])[len(C08_SCENARIOS[scenario]) - 3:]
+        sc, named, queue, (status_inc, key_inc), spelling, leftovers = spec
+        Gs = lambda a: spell(G(a), spelling)
         init = init_row(adoc("1.0", "wireserver"), sc, named=named)
         init["inc"] = {a: key_inc for a in AGUIDS}
+        for a in leftovers:
+            init["final"][a] = "key"
+            init["issued"] = init["issued"] + [a]
         cdoc = concrete_doc(init["doc"])
         if status_inc is not None:
             cdoc["keyIncarnationId"] = status_inc
         rg = self.rg
         rg.host.call(op="reset")
-        rg.reset_keys(_files_for(init), absent=(init["dir"] == "absent"))
+        rg.reset_keys(_files_for(init, spelling), absent=(init["dir"] == "absent"))
+        if leftovers:
+            # the latched key was written an hour ago; the others carry later (newer-) or earlier (older-) time stamps
+            now = time.time()
+            newer = "newer" in scenario
+            for a in init["final"]:
+                f = os.path.join(rg.keys, Gs(a) + ".key")
+                if os.path.exists(f):
+                    t = now - 3600 if a == init["latched"] else (now - 60 * AGUIDS.index(a) if newer else now - 7200 - 60 * AGUIDS.index(a))
+                    os.utime(f, (t, t))
         shutil.rmtree(rg.logs, ignore_errors=True)
         os.makedirs(rg.logs, exist_ok=True)
-        rg.host.call(op="set", hold=False, keydir=rg.keys, doc=cdoc, keys={G(a): K(a) for a in init["issued"]},
-                     named=None if init["named"] == "none" else G(init["named"]),
-                     latched=None if init["latched"] == "none" else G(init["latched"]),
-                     issue_queue=[issue_entry(a, init["inc"]) for a in queue], plans=C08_PLANS[plan])
+        rg.host.call(op="set", hold=False, keydir=rg.keys, doc=cdoc, keys={Gs(a): K(a) for a in init["issued"]},
+                     named=None if init["named"] == "none" else Gs(init["named"]),
+                     latched=None if init["latched"] == "none" else Gs(init["latched"]),
+                     issue_queue=[issue_entry(a, init["inc"], spelling) for a in queue], plans=C08_PLANS[plan])
         return init
 
     def _spawn(self, tag, inject=None, fault=None):
